@@ -113,7 +113,7 @@ pub mod gc {
     use crate::{
         interner::InternedStr,
         types::VmTag,
-        value::{DataStruct, GcStr, ValueArray},
+        value::{ArrayDef, DataStruct, GcStr, ValueArray},
     };
 
     impl Serialize for GcStr {
@@ -168,7 +168,30 @@ pub mod gc {
     where
         D: Deserializer<'de>,
     {
-        DeserializeSeed::deserialize(Seed::<DataDefSeed<Vec<Value>>>::from(seed), deserializer)
+        DeserializeSeed::deserialize(Seed::<DataDefSeed<ArrayValues>>::from(seed), deserializer)
+    }
+
+    /// The values of a deserialized array. Allocated with `ArrayDef` so that the array gets the
+    /// representation that its elements need (`Array Byte` stores bytes, `Array Int` integers etc)
+    struct ArrayValues(Vec<Value>);
+
+    impl<'de, 'gc> DeserializeState<'de, DeSeed<'gc>> for ArrayValues {
+        fn deserialize_state<D>(seed: &mut DeSeed<'gc>, deserializer: D) -> Result<Self, D::Error>
+        where
+            D: Deserializer<'de>,
+        {
+            Vec::<Value>::deserialize_state(seed, deserializer).map(ArrayValues)
+        }
+    }
+
+    unsafe impl DataDef for ArrayValues {
+        type Value = ValueArray;
+        fn size(&self) -> usize {
+            ArrayDef(&self.0).size()
+        }
+        fn initialize<'w>(self, result: WriteOnly<'w, ValueArray>) -> &'w mut ValueArray {
+            ArrayDef(&self.0).initialize(result)
+        }
     }
 
     #[derive(DeserializeState, SerializeState)]
